@@ -343,8 +343,9 @@ def load_findings(pid: str):
     return [e for e in data.get("findings", []) if e.get("property") == pid]
 
 
-def judge_guarded(mod, case, timeout_s=30.0):
+def judge_guarded(mod, case, timeout_s=None):
     install_watchdog()
+    timeout_s = timeout_s or getattr(mod, "TIMEOUT_S", 30.0)
     try:
         arm(timeout_s)
         try:
